@@ -171,7 +171,7 @@ func largeInputs(r *vlib.Run, p *pool) {
 			r.Exhaustive = false
 		}
 	}
-	sub := r.Pick(7, 1) // quick: every 7th grid point (7 is coprime to every loop length of the grid)
+	sub := r.Pick(13, 1) // quick: every 13th grid point (13 is coprime to every loop length of the grid)
 	var all, chosen []largeCase
 	infeasible := 0
 	for _, g := range groups {
@@ -180,14 +180,15 @@ func largeInputs(r *vlib.Run, p *pool) {
 		for _, c := range cs {
 			c.Ordinal = len(all)
 			all = append(all, c)
-			if c.Ordinal%sub == 0 {
+			// quick: the 1-in-sub sub-grid plus every case with delta=+1 whose run lies across the cut
+			if c.Ordinal%sub == 0 || (c.Delta == 1 && c.straddles()) {
 				chosen = append(chosen, c)
 			}
 		}
 	}
 	if sub != 1 {
 		r.Exhaustive = false
-		r.Note("part (b): quick tier runs the deterministic 1-in-%d sub-grid (%d of %d large files); thorough runs all", sub, len(chosen), len(all))
+		r.Note("part (b): quick tier runs the deterministic 1-in-%d sub-grid plus the delta=+1 cases whose run of equal keys lies across a cut (%d of %d large files); thorough runs all", sub, len(chosen), len(all))
 	}
 
 	var st smallStats
@@ -271,7 +272,7 @@ func largeInputs(r *vlib.Run, p *pool) {
 	r.Set("large_grid_points", len(all))
 	r.Set("large_grid_points_run", len(chosen))
 	r.Set("large_grid_points_infeasible", infeasible)
-	r.Set("large_grid_subsampling", fmt.Sprintf("1 in %d", sub))
+	r.Set("large_grid_subsampling", fmt.Sprintf("every %d-th grid point, plus delta=+1 cases with the run across the cut", sub))
 	r.Set("large_grid_exhaustive", sub == 1)
 	r.Set("large_compiles", st.compiles)
 	r.Set("large_cases_with_run_across_cut", straddling)
